@@ -879,7 +879,7 @@ pub fn gen_frag(rng: &mut Rng, k: &FragKnobs) -> FragCase {
                 if k.boundary && rng.chance(1, 6) {
                     this_dts.wrapping_add((1u64 << 31) - 2 + rng.below(4))
                 } else if rng.bool() {
-                    this_dts + rng.below(4) * 3000
+                    this_dts.wrapping_add(rng.below(4) * 3000)
                 } else {
                     this_dts.saturating_sub(rng.below(3) * 1500)
                 }
